@@ -15,7 +15,9 @@ params:
                       second executor (which registers its event); then the interpreter-exit hook fires: the second
                       executor's worker must still be woken and exit
   pending   bool: a job is still running when the action happens (drop only: it must still complete)
-  hist      list of history items for mode "refs"
+  hist      list of history items for mode "refs" (ok | fail | cancel_queued | cancel_inflight | cancel_between |
+            xcancel: somebody else cancels the attempt's delegate future while it is in flight)
+  poll_returns  "descs": the poll function returns the list of descriptors it was given (kind poll)
 """
 import gc
 import weakref
@@ -48,7 +50,7 @@ class Fn(object):
         return r
 
 
-def make(kind, base, polls):
+def make(kind, base, polls, interval=0.3):
     from more_executors import Executors
     if kind == "retry":
         return Executors.with_retry(base, max_attempts=2, sleep=5.0, exception_base=KeyError, name="w")
@@ -56,7 +58,9 @@ def make(kind, base, polls):
         def poll_fn(ds):
             for d in ds:
                 d.yield_result(d.result)
-        return Executors.with_poll(base, poll_fn, default_interval=0.3, name="w")
+            if polls == "descs":
+                return list(ds)     # a non-numeric return value is legal (and ignored); it refers to the descriptors
+        return Executors.with_poll(base, poll_fn, default_interval=interval, name="w")
     if kind == "throttle":
         return Executors.with_throttle(base, 1, name="w")
     return Executors.with_timeout(base, 50.0, name="w")
@@ -125,7 +129,7 @@ def build(p):
             from more_executors import Executors
             ex = Executors.with_throttle(base, 1, name="w")
         else:
-            ex = make(kind, base, None)
+            ex = make(kind, base, p.get("poll_returns"), p.get("poll_interval", 0.3))
         refs = []
         for i, h in enumerate(hist, start=1):
             holder = []
@@ -143,6 +147,16 @@ def build(p):
                 # the first attempt fails at 60, the retry is due 5 s later: cancel while the job sleeps between retries
                 E.vsleep(150)
                 fut.cancel()
+            elif h == "xcancel":
+                # somebody else (a timeout below, a cancel-on-shutdown sweep ...) cancels the delegate's future
+                E.vsleep(10)
+                wd = base.weak.get(i)
+                d = wd() if wd is not None else None
+                if d is not None:
+                    from concurrent.futures import Future as _F
+                    if _F.cancel(d):
+                        d.set_running_or_notify_cancel()
+                del d
             E.vsleep(400)
             refs.append((i, weakref.ref(fut), weakref.ref(fn), weakref.ref(arg), holder))
             done = fut.done()
